@@ -3,12 +3,14 @@
    proofs in Oscore/ReplayProofs.v, Oscore/SenderSeqProofs.v, witnesses in
    Oscore/ReplayRefuted.v.
 
-   [rp_fixed] is the recipient code after the seven "fix:" commits in /repo (the variant the
+   [rp_fixed] is the recipient code after the eight "fix:" commits in /repo (the variant the
    correspondence check runs against the C on every invocation), [rp_orig] the code as found.
    A history is any list of messages: requests, and responses that carry a Partial IV of their
    own (notifications) for requests of this endpoint; each with any sequence number in its
-   Partial IV, genuine, forged or turned away before the replay check, with or without a (valid
-   or invalid) Echo option.  [rp_accepted] lists the numbers accepted after a replay check
+   Partial IV, genuine, forged, turned away before the replay check, or stopped at any exit
+   between the replay check and the decryption verdict ([RpAbort]: every path of
+   coap_oscore_decrypt_pdu is a message class of the model), with or without a (valid or
+   invalid) Echo option.  [rp_accepted] lists the numbers accepted after a replay check
    (verdict RpAccept: every accepted request, and every accepted response once the context is
    armed); a response delivered while the context is still in its initial state has the
    verdict RpAcceptUnchecked - nothing is claimed for those (see notes/C15.md).  W is replay_window_size (every
@@ -34,7 +36,8 @@ Proof. exact rp_window_exact. Qed.
 Print Assumptions C15_window_exact.
 
 (* a message that fails authentication (or is turned away before that: undecodable option, no
-   kid, unknown security context) is never accepted and leaves last_seq, the window and
+   kid, unknown security context; or whose processing stops anywhere between the replay check
+   and the decryption verdict) is never accepted and leaves last_seq, the window and
    initial_state exactly as they were, in every reachable state *)
 Theorem C15_forgery_no_trace : forall W b12 s m,
   rp_reachable W b12 s -> rp_m_auth m <> RpGenuine ->
@@ -156,7 +159,7 @@ Theorem C15_orig_shift_by_width_refuted :
 Proof. exact rp_orig_shift_by_width_refuted. Qed.
 Print Assumptions C15_orig_shift_by_width_refuted.
 
-(* ---- each of the seven repairs is necessary (the other six applied) ---- *)
+(* ---- each of the eight repairs is necessary (the other seven applied) ---- *)
 
 Theorem C15_no_bitidx_refuted :
   exists h, ~ NoDup (rp_accepted rp_no_bitidx 32 false rp_init h) /\
@@ -203,6 +206,13 @@ Theorem C15_no_resp_nowrite_refuted :
     fst (rp_run rp_no_resp_nowrite 32 true rp_init (filter rp_is_genuine h)).
 Proof. exact rp_no_resp_nowrite_refuted. Qed.
 Print Assumptions C15_no_resp_nowrite_refuted.
+
+Theorem C15_no_abort_rb_refuted :
+  exists h,
+    rp_genuine_verdicts h (fst (rp_run rp_no_abort_rb 32 false rp_init h)) <>
+    fst (rp_run rp_no_abort_rb 32 false rp_init (filter rp_is_genuine h)).
+Proof. exact rp_no_abort_rb_refuted. Qed.
+Print Assumptions C15_no_abort_rb_refuted.
 
 Theorem C15_orig_forged_response_refuted :
   exists h1 h2,
